@@ -236,16 +236,59 @@ def enc_geom(d):
             return "(GMappedLin %s %s %s)" % (enc_geom(d["inner"]), cmat(f["M"]), ("(Some %s)" % cmat(f["Mi"])) if (d["imap"] and f.get("Mi") is not None) else "None")
         fm, fi = m_coq(d)
         return "(GMapped %s %s %s)" % (enc_geom(d["inner"]), fm, ("(Some %s)" % fi) if (d["imap"] and fi) else "None")
+    if k in ("klfull", "customkl"):
+        # an affine expansion  p -> mean + B p  over the parameter space: MappedGeometry(matrix) [then an elementwise shift]
+        B, mean = expansion_matrix(d)
+        core = "(GMappedLin (GCont1D %s) %s None)" % (cnat(B.shape[1]), cmat(B))
+        return core if k == "klfull" else "(GMapped %s (fun x => x + %s)%%Qc None)" % (core, cqc(mean))
     if k == "kl":
         c = kl_cert(d)
         return "(GKL %s %s %s %s %s %s)" % (cnat(d["N"]), copt(d["num_modes"], cnat), clist([cqc(v) for v in c["coefs"]]), cqc(d["tau"]),
                                             cmat(c["dst"]), cmat(c["idst"]))
     if k == "step":
-        return "(GStep %s %s %s)" % (cnat(len(d["grid"])), step_idx_term(d), {"mean": "PMean", "max": "PMax", "min": "PMin"}[d["proj"]])
+        return "(GStep %s %s %s)" % (cnat(len(d["grid"])), step_idx_term(d), {"mean": "PMean", "max": "PMax", "min": "PMin"}[d["proj"].lower()])
     raise ValueError(k)
 
 
 _KL_CACHE = {}
+
+
+_EXP_CACHE = {}
+
+
+def expansion_matrix(d):
+    """(B, mean) with par2fun(p) = mean + B @ p.
+    KLExpansion_Full: B from the DOCUMENTED formula (std^2/(2 pi) * idst * diag(tau^g/(tau+i^2)^g), tau = 1/cor_len^2, g = nu+1),
+    independent of the object under test; scipy's idst on unit vectors is the external numerics.
+    CustomKL: B = eigvec @ diag(sqrt(eigval)) read from the object's attributes -- a certificate (the eigen-decomposition of the
+    quadrature matrix is external numerics); what is tied is the wiring of par2fun, mean, shapes, batches and Samples through it."""
+    key = json.dumps(d, sort_keys=True)
+    if key not in _EXP_CACHE:
+        if d["kind"] == "klfull":
+            from scipy.fftpack import idst
+            N = d["N"]
+            tau2, gam = 1.0 / d["cor_len"] / d["cor_len"], d["nu"] + 1.0
+            coefs = np.array([tau2 ** gam * (tau2 + i ** 2) ** (-gam) for i in range(N)])
+            Di = np.array([idst(np.eye(N)[:, j]) for j in range(N)]).T
+            _EXP_CACHE[key] = (d["std"] ** 2 / (2 * np.pi) * Di @ np.diag(coefs), 0.0)
+        else:
+            g = build_geom(d)
+            _EXP_CACHE[key] = (np.asarray(g.eigvec) @ np.diag(np.sqrt(np.asarray(g.eigval))), float(d["mean"]))
+    return _EXP_CACHE[key]
+
+
+def kl_full_doc_sum(d, p):
+    """the sine sum of the KLExpansion_Full docstring"""
+    N = d["N"]
+    tau2, gam = 1.0 / d["cor_len"] ** 2, d["nu"] + 1.0
+    out = np.zeros(N)
+    for K in range(N):
+        s_ = 0.0
+        for i, pi_ in enumerate(p):
+            c = tau2 ** gam / (tau2 + i ** 2) ** gam
+            s_ += ((-1) ** K / 2.0 * c * pi_) if i == N - 1 else c * pi_ * math.sin(math.pi / N * (i + 1) * (K + 0.5))
+        out[K] = d["std"] ** 2 / math.pi * s_
+    return out
 
 
 def kl_cert(d):
@@ -290,7 +333,16 @@ def build_geom(d):
         return G.MappedGeometry(build_geom(d["inner"]), map=fmap, imap=fimap if d["imap"] else None)
     if k == "kl":
         return G.KLExpansion(np.linspace(0, 1, d["N"]), decay_rate=d["decay"], normalizer=d["tau"], num_modes=d["num_modes"])
+    if k == "klfull":
+        return G.KLExpansion_Full(np.linspace(0, 1, d["N"]), std=d["std"], cor_len=d["cor_len"], nu=d["nu"])
+    if k == "customkl":
+        cl = d["cor_len"]
+        return G.CustomKL(np.linspace(0, 1, d["N"]), mean=d["mean"], std=d["std"], trunc_term=d["trunc"],
+                          cov_func=(lambda x, y, cl=cl, sd=d["std"]: sd ** 2 * np.exp(-abs(x - y) / cl)))
     if k == "step":
+        if d.get("defaults"):
+            assert d["n_steps"] == 3 and d["proj"] == "mean"
+            return G.StepExpansion(grid_of(d))             # every optional argument left at its default
         return G.StepExpansion(grid_of(d), n_steps=d["n_steps"], fun2par_projection=d["proj"])
     raise ValueError(k)
 
@@ -302,7 +354,13 @@ def innermost(d):
 
 
 CLASSNAME = {"cont1d": "Continuous1D", "default1d": "_DefaultGeometry1D", "discrete": "Discrete", "cont2d": "Continuous2D",
-             "image": "Image2D", "default2d": "_DefaultGeometry2D", "kl": "KLExpansion", "step": "StepExpansion"}
+             "image": "Image2D", "default2d": "_DefaultGeometry2D", "kl": "KLExpansion", "step": "StepExpansion",
+             "klfull": "KLExpansion_Full", "customkl": "CustomKL"}
+
+
+def has_inverse(d):
+    """does the geometry offer a function-to-parameter map?  (KLExpansion_Full and CustomKL raise NotImplementedError)"""
+    return innermost(d)["kind"] not in ("klfull", "customkl") and all(m.get("imap", True) for m in chain_of(d))
 
 
 def gcell(d):
@@ -315,7 +373,7 @@ def gcell(d):
 
 
 def is_exact(d):
-    return innermost(d)["kind"] not in ("kl",) and all(m_exact(m) for m in chain_of(d))
+    return innermost(d)["kind"] not in ("kl", "klfull", "customkl") and all(m_exact(m) for m in chain_of(d))
 
 
 def is_identity(d):
@@ -338,6 +396,10 @@ def doc_par_shape(d):
     if k == "kl":
         m = d["num_modes"]
         return (d["N"] if m is None or m > d["N"] else m,)
+    if k == "klfull":
+        return (d["N"],)
+    if k == "customkl":
+        return (d["trunc"],)
     if k == "step":
         return (d["n_steps"],)
 
@@ -354,7 +416,7 @@ def doc_fun_shape(d):
         if m_is_matrix(d):
             return (len(d["fmap"]["M"]),)      # the documentation of fun_shape: the shape of the function values par2fun returns
         return doc_fun_shape(d["inner"])
-    if k == "kl":
+    if k in ("kl", "klfull", "customkl"):
         return (d["N"],)
     if k == "step":
         return (len(d["grid"]),)
@@ -416,12 +478,31 @@ def kl_doc_sum(d, p):
 # ------------------------------------------------------------------------------------------------
 # the independent property oracle for one map application
 # ------------------------------------------------------------------------------------------------
-def call(g, name, x):
+def with_layout(x, layout):
+    """the same values in another dtype / memory layout (lesson: dtype and memory layout of inputs)"""
+    x = np.array(x, dtype=float)
+    if layout == "F":
+        return np.asfortranarray(x)
+    if layout == "int":
+        return x.astype(int)
+    if layout in ("up", "down"):              # the same data 2^24 times larger / smaller (exact in binary64)
+        return x * (2.0 ** 24 if layout == "up" else 2.0 ** -24)
+    if layout == "view":                      # a non-contiguous view of a larger buffer
+        big = np.full((2 * x.shape[0],) + x.shape[1:], 99.0)
+        big[::2] = x
+        return big[::2]
+    return x
+
+
+def call(g, name, x, layout=None, keep=None):
+    xin = with_layout(x, layout)
+    if keep is not None:
+        keep.append(xin)
     with warnings.catch_warnings():
         warnings.simplefilter("ignore")
         try:
             with np.errstate(all="ignore"):
-                y = getattr(g, name)(np.array(x, dtype=float))
+                y = getattr(g, name)(xin)
             return np.asarray(y)
         except Exception as e:      # noqa: the refusal itself is the observation
             return None
@@ -498,7 +579,7 @@ def prop_check_map(d, g, mapname, x, y):
     """None if the property holds for this application, else a description.  (Malformed inputs carry no claim.)"""
     exact = is_exact(d)
     ps, fs = doc_par_shape(d), doc_fun_shape(d)
-    has_inv = all(m.get("imap", True) for m in chain_of(d))
+    has_inv = has_inverse(d)
     isimg = innermost(d)["kind"] in ("image", "default2d")
     vs = (int(np.prod(fs)),) if isimg else fs          # shape of the vector representation of a function value
     in_base, out_base, inv = {"par2fun": (ps, fs, "fun2par"), "fun2par": (fs, ps, "par2fun"),
@@ -512,6 +593,10 @@ def prop_check_map(d, g, mapname, x, y):
         return None          # no function-to-parameter map offered
     k, cols = split_cols(x, in_base)
     if k == "bad":
+        # documented refusal (Continuous._reshape_par2fun_input / _reshape_fun2par_input: "must have shape S or S+(n,)"), for the
+        # two classes that check their input
+        if d["kind"] in ("kl", "step") and mapname in ("par2fun", "fun2par") and y is not None:
+            return "%s accepted an input of shape %s; documented shapes are %s or %s+(n,)" % (mapname, np.asarray(x).shape, tuple(in_base), tuple(in_base))
         return None
     if y is None:
         return "%s raised on a well-formed input of shape %s" % (mapname, np.asarray(x).shape)
@@ -531,7 +616,12 @@ def prop_check_map(d, g, mapname, x, y):
     if mapname == "par2fun":
         c0 = np.asarray(cols[0], dtype=float)
         y0 = y if (k is None or k == 1) else y[..., 0]
-        if innermost(d)["kind"] == "kl":
+        if d["kind"] == "klfull":
+            if not same(y0, kl_full_doc_sum(d, list(c0)), False):
+                return "KLExpansion_Full par2fun differs from the documented sine sum: %s vs %s" % (y0.tolist(), kl_full_doc_sum(d, list(c0)).tolist())
+        elif innermost(d)["kind"] in ("klfull", "customkl"):
+            pass
+        elif innermost(d)["kind"] == "kl":
             if d["kind"] == "kl" and not same(y0, kl_doc_sum(d, list(c0)), False):
                 return "KL par2fun differs from the documented sine sum: %s vs %s" % (y0.tolist(), kl_doc_sum(d, list(c0)).tolist())
         else:
@@ -552,7 +642,7 @@ def prop_check_map(d, g, mapname, x, y):
         want_p = []
         for i in range(n):
             sel = [vals[t] for t in range(N) if ideal_step_of_node(N, n, t) == i]
-            want_p.append({"mean": lambda L: sum(L) / len(L), "max": max, "min": min}[st["proj"]](sel) if sel else None)
+            want_p.append({"mean": lambda L: sum(L) / len(L), "max": max, "min": min}[st["proj"].lower()](sel) if sel else None)
         y0 = np.asarray(y if (k is None or k == 1) else y[..., 0], dtype=float).reshape(-1)
         if all(w is not None for w in want_p) and not same(y0, np.array([float(w) for w in want_p]), False):
             return "fun2par is not the documented '%s' projection over the nodes of each step: got %s, documented %s" % (
@@ -601,13 +691,21 @@ MAPCOQ = {"par2fun": "Mpar2fun", "fun2par": "Mfun2par", "fun2vec": "Mfun2vec", "
 def map_case(d, mapname, x, form):
     g = build_geom(d)
     x = np.array(x, dtype=float)
-    y = call(g, mapname, x)
+    handed = []
+    layout = form.split("@")[1] if "@" in form else None
+    y = call(g, mapname, x, layout, keep=handed)
+    if layout in ("up", "down"):
+        # linear / positively homogeneous maps: scale back exactly and compare with the model on the unscaled data, so that the
+        # comparison is relative at every magnitude (lesson: absolute tolerances on O(1)-only data)
+        sc = 2.0 ** 24 if layout == "up" else 2.0 ** -24
+        handed[0] = handed[0] / sc
+        y = None if y is None else y / sc
     meta = {"op": "map", "geom": d, "map": mapname, "x": x.tolist(), "form": form}
     k, _ = split_cols(x, in_base_of(d, mapname))
     if innermost(d)["kind"] == "step" and mapname == "fun2par" and d["kind"] == "step":
         obs = "None" if y is None else "(Some %s)" % carr(y, coqc_opt)
         expr = "check_step_fun2par_m %s %s %s %s %s %s" % (
-            FL(im=False), cnat(len(d["grid"])), step_idx_term(d), {"mean": "PMean", "max": "PMax", "min": "PMin"}[d["proj"]], carr(x), obs)
+            FL(im=False), cnat(len(d["grid"])), step_idx_term(d), {"mean": "PMean", "max": "PMax", "min": "PMin"}[d["proj"].lower()], carr(x), obs)
     else:
         if y is not None and np.isnan(y).any():
             obs = "None"       # mapped-over-step with NaN: the Qc-valued model refuses; kept out of the generator
@@ -616,6 +714,8 @@ def map_case(d, mapname, x, form):
         expr = "check_map_m %s %s %s %s %s %s" % (FL(), cbool(is_exact(d) and not (innermost(d)["kind"] == "step" and mapname == "fun2par")),
                                              MAPCOQ[mapname], enc_geom(d), carr(x), obs)
     fail = prop_check_map(d, g, mapname, x, y)
+    if fail is None and not np.array_equal(np.asarray(handed[0], dtype=float), x):
+        fail = "%s changed the array it was given: %s -> %s" % (mapname, x.tolist(), np.asarray(handed[0], dtype=float).tolist())
     site = mapname
     if isinstance(fail, tuple):
         fail, site = fail
@@ -642,8 +742,15 @@ def map_cases_for(ctx, d, reps=1):
         forms = [("single", tuple(base)), ("col1", tuple(base) + (1,)), ("batch2", tuple(base) + (2,)), ("batch3", tuple(base) + (3,))]
         if mapname in ("vec2fun", "fun2vec"):
             forms = forms[:1] + forms[2:3]
+        if mapname in ("par2fun", "fun2par"):
+            # the same maps on integer arrays, Fortran-ordered batches and non-contiguous views
+            forms += [("single@int", tuple(base)), ("batch2@F", tuple(base) + (2,)), ("batch3@view", tuple(base) + (3,))]
+            if all(m_is_matrix(m) for m in chain_of(d)) and innermost(d)["kind"] != "customkl":
+                forms += [("single@up", tuple(base)), ("batch2@down", tuple(base) + (2,))]
+            if not any(m_is_matrix(m) for m in chain_of(d)) and innermost(d)["kind"] not in ("klfull", "customkl"):
+                forms += [("malformed3d", tuple(base) + (2, 2))]
         for form, shp in forms:
-            for _ in range(reps):
+            for _ in range(reps if "@" not in form and form != "malformed3d" else 1):
                 out.append(map_case(d, mapname, rand_arr(rng, shp), form))
         # malformed: one element too many / too few
         n = int(np.prod(base))
@@ -684,6 +791,99 @@ def shape_case(d):
         if d["kind"] == "mapped" and "|" not in sig:
             sig = "MappedGeometry.shapes|%s-map-over-%s" % (m_kind(d), CLASSNAME[innermost(d)["kind"]])
     return Case(expr=expr, meta={"op": "shapes", "geom": d}, cell="shapes/" + gcell(d), impl_fail=fail, signature=sig, kind="DECISION")
+
+
+def klfull_cases(ctx):
+    """KLExpansion_Full: par2fun on single vectors (also SHORTER ones: the missing modes are zero), too long vectors refused,
+    batches refused (freq[:m] = p needs a 1-d p), no fun2par, shapes, Samples.funvals (a per-sample loop) through it"""
+    out = []
+    for d in ({"kind": "klfull", "N": 5, "std": 1.0, "cor_len": 0.2, "nu": 3.0}, {"kind": "klfull", "N": 4, "std": 2.0, "cor_len": 0.5, "nu": 1.5},
+              {"kind": "klfull", "N": 2, "std": 0.5, "cor_len": 1.0, "nu": 0.0}):
+        N = d["N"]
+        out.append(shape_case(d))
+        out.append(map_case(d, "par2fun", rand_arr(ctx.rng, (N,)), "single"))
+        out.append(map_case(d, "par2fun", rand_arr(ctx.rng, (N + 1,)), "malformed"))
+        out.append(map_case(d, "fun2par", rand_arr(ctx.rng, (N,)), "single"))
+        out.append(map_case(d, "vec2fun", rand_arr(ctx.rng, (N,)), "single"))
+        out.append(map_case(d, "fun2vec", rand_arr(ctx.rng, (N,)), "single"))
+        out.append(samples_case(d, rand_arr(ctx.rng, (N, 3)), True, True, ["funvals"]))
+        out.append(samples_case(d, rand_arr(ctx.rng, (N, 2)), True, True, ["funvals", "vector"]))
+        out.append(cuqiarray_case(d, rand_arr(ctx.rng, (N,)), True, False))
+        # fewer coefficients than nodes: zero-padded
+        g = build_geom(d)
+        for m in range(1, N):
+            p = rand_arr(ctx.rng, (m,))
+            y = call(g, "par2fun", p)
+            pad = np.concatenate([p, np.zeros(N - m)])
+            expr = "check_map_m %s false Mpar2fun %s %s %s" % (FL(), enc_geom(d), carr(pad), copt(y, carr))
+            fail = None if (y is not None and same(y, kl_full_doc_sum(d, list(p)), False)) else "KLExpansion_Full par2fun of %d < N coefficients is not the documented sum with the missing modes zero" % m
+            out.append(Case(expr=expr, meta={"op": "klfull_short", "geom": d, "p": p.tolist()}, cell="map/klfull/par2fun/short", kind="DECISION",
+                            impl_fail=fail, signature="KLExpansion_Full.par2fun|short" if fail else ""))
+        for shp_ in ((N, 1), (N, 2)):
+            y = call(g, "par2fun", rand_arr(ctx.rng, shp_))
+            out.append(Case(expr=cbool(y is None), meta={"op": "klfull_batch", "geom": d, "shape": list(shp_)}, cell="map/klfull/par2fun/batch-refused", kind="DECISION"))
+    return out
+
+
+STEP_STALE = "StepExpansion.grid|stale-indices"
+_STEP_REGRID_FIXED = None
+
+
+def step_regrid_fixed():
+    """does re-assigning `grid` on a StepExpansion recompute its index sets?  (today it does not)"""
+    global _STEP_REGRID_FIXED
+    if _STEP_REGRID_FIXED is None:
+        import cuqi.geometry as G
+        try:
+            g = G.StepExpansion(np.linspace(0, 1, 7), n_steps=3)
+            g.grid = np.linspace(0, 1, 10)
+            f = G.StepExpansion(np.linspace(0, 1, 10), n_steps=3)
+            _STEP_REGRID_FIXED = [list(map(int, i)) for i in g._indices] == [list(map(int, i)) for i in f._indices]
+        except Exception:
+            _STEP_REGRID_FIXED = False
+    return _STEP_REGRID_FIXED
+
+
+def step_regrid_case(d_old, d_new, mapname, x):
+    """history: a StepExpansion is built on one grid, used, and its public `grid` attribute is replaced (the setter of Continuous1D);
+    the maps must then be those of a StepExpansion built on the new grid.  Today the index sets of the OLD grid are kept: the
+    model is faithful to that (GStep with the new node count and the old index sets) where numpy does not raise."""
+    g = build_geom(d_old)
+    with warnings.catch_warnings():
+        warnings.simplefilter("ignore")
+        g.fun2par(g.par2fun(np.ones(g.par_dim)))
+        g.grid = grid_of(d_new)
+    x = np.array(x, dtype=float)
+    y = call(g, mapname, x)
+    Nn, No = len(d_new["grid"]), len(d_old["grid"])
+    pr = {"mean": "PMean", "max": "PMax", "min": "PMin"}[d_new["proj"].lower()]
+    if step_regrid_fixed():
+        geom = enc_geom(d_new)
+    else:
+        geom = "(GStep %s %s %s)" % (cnat(Nn), step_idx_term(d_old), pr)
+    if Nn < No and not step_regrid_fixed():
+        expr = cbool(y is None)           # numpy raises IndexError on the stale indices; the model does not index out of bounds
+    elif mapname == "fun2par":
+        expr = "check_step_fun2par_m %s %s %s %s %s %s" % (FL(im=False), cnat(Nn), step_idx_term(d_new if step_regrid_fixed() else d_old), pr, carr(x),
+                                                         "None" if y is None else "(Some %s)" % carr(y, coqc_opt))
+    else:
+        expr = "check_map_m %s true %s %s %s %s" % (FL(), MAPCOQ[mapname], geom, carr(x), copt(y, carr))
+    # the property, independently: documented placement / projection on the NEW grid
+    fail = None
+    n = d_new["n_steps"]
+    if mapname == "par2fun" and x.ndim == 1:
+        want = np.array([x[ideal_step_of_node(Nn, n, t)] for t in range(Nn)])
+        if y is None or not same(y, want, True):
+            fail = "after `grid` was replaced (%d -> %d nodes) par2fun is not the step function on the new grid: %s, documented %s" % (
+                No, Nn, None if y is None else y.tolist(), want.tolist())
+    if mapname == "fun2par" and x.ndim == 1:
+        sel = [[x[t] for t in range(Nn) if ideal_step_of_node(Nn, n, t) == i] for i in range(n)]
+        want = np.array([{"mean": np.mean, "max": np.max, "min": np.min}[d_new["proj"].lower()](v) for v in sel])
+        if y is None or not same(y, want, False):
+            fail = "after `grid` was replaced (%d -> %d nodes) fun2par is not the documented projection on the new grid: %s, documented %s" % (
+                No, Nn, None if y is None else y.tolist(), want.tolist())
+    return Case(expr=expr, meta={"op": "step_regrid", "old": d_old, "new": d_new, "map": mapname, "x": x.tolist()}, cell="step/regrid/" + mapname,
+                kind="DECISION", impl_fail=fail, signature=STEP_STALE if fail else "")
 
 
 def kl_regrid_case(d_old, d_new, mapname, x):
@@ -769,15 +969,16 @@ def samples_case(d, arr, is_par, is_vec, ops):
     from cuqi.samples import Samples
     g = build_geom(d)
     arr = np.array(arr, dtype=float)
-    trail = []
+    trail, snaps = [], []
     with warnings.catch_warnings():
         warnings.simplefilter("ignore")
         try:
-            S = Samples(arr.copy(), geometry=g, is_par=is_par, is_vec=is_vec)
+            S = Samples(arr.copy(), geometry=(None if d.get("implicit") else g), is_par=is_par, is_vec=is_vec)    # implicit: the default geometry
             R = S
             for op in ops:
                 R = getattr(R, op)
                 trail.append(R)
+                snaps.append(np.array(R.samples, dtype=float, copy=True) if isinstance(R.samples, np.ndarray) else None)
             obs = (np.asarray(R.samples, dtype=float), bool(R.is_par), bool(R.is_vec)) if isinstance(R.samples, np.ndarray) else None
             if obs is not None and np.isnan(obs[0]).any():
                 obs = None         # NaN (empty step): the Qc-valued model refuses; such geometries are kept out of this lattice
@@ -789,7 +990,7 @@ def samples_case(d, arr, is_par, is_vec, ops):
     # ---- property: lossless and consistent with the per-sample maps
     fail = None
     vec_undefined = innermost(d)["kind"] == "cont2d"
-    has_inv = all(m.get("imap", True) for m in chain_of(d))
+    has_inv = has_inverse(d)
     if is_par:
         ex = is_exact(d)
         if obs is None and not (vec_undefined and "vector" in ops and not is_identity(d)) and not ("parameters" in ops and not has_inv):
@@ -812,6 +1013,16 @@ def samples_case(d, arr, is_par, is_vec, ops):
             if fail is None and ops == ["funvals", "vector", "funvals"]:
                 if not same(obs[0], np.asarray(trail[0].samples), ex):
                     fail = "funvals->vector->funvals differs from funvals"
+    if fail is None and obs is not None:
+        # histories: the Samples object we started from and every intermediate one still hold what they held when created
+        try:
+            if not np.array_equal(np.asarray(S.samples, dtype=float), arr):
+                fail = "the conversions changed the samples of the object they started from"
+            for R_, snap in zip(trail, snaps):
+                if isinstance(R_.samples, np.ndarray) and not np.array_equal(np.asarray(R_.samples, dtype=float), snap, equal_nan=True):
+                    fail = "a later conversion changed the samples of an earlier result"
+        except Exception:
+            pass
     sig = ("Samples.%s|%s" % (ops[-1], CLASSNAME[innermost(d)["kind"]])) if fail else ""
     if fail and has_singleton(d, "par2fun"):
         sig = "%s.par2fun|%s" % (CLASSNAME[innermost(d)["kind"]], SQ)       # root cause: squeeze() in the geometry map
@@ -829,10 +1040,10 @@ def cuqiarray_case(d, x, is_par, to_par):
     with warnings.catch_warnings():
         warnings.simplefilter("ignore")
         try:
-            a = CUQIarray(x.copy(), is_par=is_par, geometry=g)
+            a = CUQIarray(x.copy(), is_par=is_par, geometry=(None if d.get("implicit") else g))
             r = a.parameters if to_par else a.funvals
             obs = (np.asarray(r.to_numpy(), dtype=float), bool(r.is_par))
-            same_geom = r.geometry is g
+            same_geom = (r.geometry is g) if not d.get("implicit") else (r.geometry is a.geometry)
             back = None
             if is_par and not to_par:
                 try:
@@ -845,7 +1056,7 @@ def cuqiarray_case(d, x, is_par, to_par):
     enc_o = lambda o: "(%s, %s)" % (carr(o[0]), cbool(o[1]))
     expr = "check_cuqiarray_m %s %s %s %s %s %s %s && %s" % (FL(), cbool(exact), cbool(to_par), enc_geom(d), carr(x), cbool(is_par), copt(obs, enc_o), cbool(same_geom))
     fail = None
-    has_inv = all(m.get("imap", True) for m in chain_of(d))
+    has_inv = has_inverse(d)
     if is_par and not to_par and x.shape == tuple(doc_par_shape(d)):
         if obs is None:
             fail = "CUQIarray.funvals raised"
@@ -855,6 +1066,8 @@ def cuqiarray_case(d, x, is_par, to_par):
             fail = "CUQIarray.funvals.parameters != original: %s vs %s" % (None if back is None else back.tolist(), x.tolist())
         elif not same_geom:
             fail = "geometry not carried over"
+    if fail is None and obs is not None and obs[1] and obs[0].ndim > 1:
+        fail = "a CUQIarray flagged as parameters holds a %d-d array (parameters are vectors)" % obs[0].ndim
     sig = ""
     if fail:
         sig = sig_for(d, "fun2par" if "funvals.parameters" in fail else "par2fun", None)
@@ -1148,6 +1361,8 @@ def geoms_lattice(ctx):
           {"kind": "mapped", "inner": {"kind": "discrete", "n": 3}, "fmap": mat(prolong(3)), "imap": False},
           {"kind": "mapped", "inner": c1(5), "fmap": mat(inject(3)), "imap": False},
           {"kind": "mapped", "inner": c1(4), "fmap": mat(reverse(4), reverse(4)), "imap": True},
+          {"kind": "mapped", "inner": c1(2), "fmap": mat([[1.0, 2.0], [3.0, 4.0], [0.0, 1.0]], [[-2.0, 1.0, 0.0], [1.5, -0.5, 0.0]]), "imap": True},
+          {"kind": "mapped", "inner": {"kind": "discrete", "n": 3}, "fmap": mat([[0.5, -1.0, 2.0], [-3.0, 0.25, 1.0], [1.0, 1.0, -1.0]]), "imap": False},
           {"kind": "mapped", "inner": c1(4), "fmap": mat(cumsum(4), diffm(4)), "imap": True},
           {"kind": "mapped", "inner": inners[4], "fmap": mat(cumsum(7), diffm(7)), "imap": True},
           {"kind": "mapped", "inner": inners[4], "fmap": mat(inject(4)), "imap": False},
@@ -1155,6 +1370,10 @@ def geoms_lattice(ctx):
           {"kind": "mapped", "inner": {"kind": "mapped", "inner": c1(3), "fmap": mat(prolong(3), inject(3)), "imap": True}, "a": 2.0, "b": -1.0, "imap": True},
           {"kind": "mapped", "inner": {"kind": "mapped", "inner": c1(3), "fmap": moeb, "imap": True}, "fmap": mat(prolong(3), inject(3)), "imap": True},
           {"kind": "mapped", "inner": {"kind": "mapped", "inner": c1(3), "fmap": mat(prolong(3), inject(3)), "imap": True}, "fmap": mat(inject(3), prolong(3)), "imap": False}]
+    # CustomKL (no fun2par offered): par2fun = mean + eigvec sqrt(eigval) p, batches, Samples
+    L += [{"kind": "customkl", "N": 6, "trunc": 2, "mean": 0.0, "std": 1.0, "cor_len": 0.5},
+          {"kind": "customkl", "N": 7, "trunc": 3, "mean": 1.5, "std": 2.0, "cor_len": 0.25},
+          {"kind": "mapped", "inner": {"kind": "customkl", "N": 6, "trunc": 2, "mean": -1.0, "std": 1.0, "cor_len": 0.5}, "a": 2.0, "b": 0.5, "imap": True}]
     # KL: N x num_modes x decay x normalizer
     kl = []
     for N in ((1, 2, 3, 5, 8) if not ctx.thorough else (1, 2, 3, 4, 5, 6, 8, 9)):
@@ -1170,11 +1389,12 @@ def geoms_lattice(ctx):
         for n in sorted(set([1, 2, 3, N // 2, N - 1, N])):
             if 1 <= n <= N:
                 for (a, b) in FIXED_AB[(N + n) % 5:] + FIXED_AB[:(N + n) % 5]:     # first fixed grid with the documented partition
-                    d = {"kind": "step", "grid": hexgrid(np.linspace(a, b, N)), "n_steps": n, "proj": ["mean", "max", "min"][(N + n) % 3]}
+                    d = {"kind": "step", "grid": hexgrid(np.linspace(a, b, N)), "n_steps": n, "proj": ["mean", "max", "min", "Mean", "MAX", "Min"][(N + n) % 6]}
                     if not step_defect(d):
                         st.append(d)
                         break
     L += st
+    L.append({"kind": "step", "grid": hexgrid(np.linspace(0.0, 1.0, 8)), "n_steps": 3, "proj": "mean", "defaults": True})
     return L, kl
 
 
@@ -1193,7 +1413,8 @@ def spread(cases):
 
 
 def run(ctx):
-    global _STEP_FIXED, _EQ_STRICT, _SQ_FIXED, _IM_FIXED
+    global _STEP_FIXED, _EQ_STRICT, _SQ_FIXED, _IM_FIXED, _STEP_REGRID_FIXED
+    _STEP_REGRID_FIXED = None
     _STEP_FIXED = None
     _EQ_STRICT = None
     _SQ_FIXED = None
@@ -1210,6 +1431,11 @@ def run(ctx):
     for d in kls:
         if d["num_modes"] != 0:
             cases.append(kl_cert_case(d))
+    for (N1, N2, ns, prj) in ((7, 10, 3, "mean"), (7, 12, 4, "max"), (10, 7, 3, "min"), (9, 9, 3, "mean")):
+        d_old = {"kind": "step", "grid": hexgrid(np.linspace(0.0, 1.0, N1)), "n_steps": ns, "proj": prj}
+        d_new = dict(d_old, grid=hexgrid(np.linspace(0.0, 2.0, N2)))
+        cases.append(step_regrid_case(d_old, d_new, "par2fun", rand_arr(rng, (ns,))))
+        cases.append(step_regrid_case(d_old, d_new, "fun2par", rand_arr(rng, (N2,))))
     for (N1, N2, m) in ((6, 4, None), (4, 6, None), (6, 3, 5), (3, 6, 5), (5, 5, 3)):
         d_old = {"kind": "kl", "N": N1, "num_modes": m, "decay": 2.0, "tau": 4.0}
         d_new = dict(d_old, N=N2)
@@ -1300,6 +1526,14 @@ def run(ctx):
     ctx.note("StepExpansion.__init__ in this tree: %s" % ("node-number partition (repaired: fixes/C13_step_partition_minimal.diff or C13_step_partition.diff)" if step_fixed()
                                                          else "interval tests on float coordinates (unrepaired)"))
     ctx.note("repairs in this tree: squeeze->batch axis only: %s; Image2D.fun2par keeps the batch axis: %s" % (sq_fixed(), im_fixed()))
+    # optional argument `geometry` omitted: Samples / CUQIarray build their default geometry themselves
+    for n_ in (1, 4):
+        dimp = {"kind": "default1d", "n": n_, "implicit": True}
+        for ops in (["funvals"], ["funvals", "parameters"], ["funvals", "vector", "parameters"], ["vector"]):
+            cases.append(samples_case(dimp, rand_arr(rng, (n_, 3)), True, True, ops))
+        cases.append(cuqiarray_case(dimp, rand_arr(rng, (n_,)), True, False))
+        cases.append(cuqiarray_case(dimp, rand_arr(rng, (n_,)), True, True))
+    cases += klfull_cases(ctx)
     cases += eq_cases(ctx, geoms)
     cases = spread(cases)
     return Result(cases=cases, rule=RULE,
@@ -1329,6 +1563,8 @@ def _recase(meta):
         return cuqiarray_case(meta["geom"], np.array(meta["x"], dtype=float), meta["is_par"], meta["to_par"])
     if op == "kl_cert":
         return kl_cert_case(meta["geom"])
+    if op == "step_regrid":
+        return step_regrid_case(meta["old"], meta["new"], meta["map"], np.array(meta["x"], dtype=float))
     if op == "kl_regrid":
         return kl_regrid_case(meta["old"], meta["new"], meta["map"], np.array(meta["x"], dtype=float))
     if op == "eq":
@@ -1373,6 +1609,9 @@ WITNESSES = {
         {"op": "map", "geom": {"kind": "kl", "N": 3, "num_modes": 1, "decay": 1.0, "tau": 1.0}, "map": "fun2par", "x": [1.0, 2.0, 3.0], "form": "single"},
     "KLExpansion.par2fun|" + SQ:
         {"op": "map", "geom": {"kind": "kl", "N": 1, "num_modes": None, "decay": 1.0, "tau": 1.0}, "map": "par2fun", "x": [2.0], "form": "single"},
+    STEP_STALE:
+        {"op": "step_regrid", "old": {"kind": "step", "grid": hexgrid(np.linspace(0.0, 1.0, 7)), "n_steps": 3, "proj": "mean"},
+         "new": {"kind": "step", "grid": hexgrid(np.linspace(0.0, 1.0, 10)), "n_steps": 3, "proj": "mean"}, "map": "par2fun", "x": [1.0, 2.0, 3.0]},
     EQ_BROADCAST:
         {"op": "eq", "d1": {"kind": "cont1d", "n": 1, "gridvals": [2.0]}, "d2": {"kind": "cont1d", "n": 3, "gridvals": [2.0, 2.0, 2.0]}, "used": [0, 0], "cellname": "witness"},
     EQ_CACHE:
